@@ -102,10 +102,12 @@ func roundF16(f float32) int {
 func packF16(f float32) []byte {
 	buffer := []byte{0, 0, 0}
 
-	if f > 670760.96 {
-		f = 670760.96
-	} else if f < -671088.64 {
-		f = -671088.64
+	// No 9.xxx decoder accepts a magnitude above 670760 (0x7FFF signals invalid data), so the
+	// extreme value that may be emitted is mantissa +-2046 at exponent 15.
+	if f > 670433.28 {
+		f = 670433.28
+	} else if f < -670433.28 {
+		f = -670433.28
 	}
 
 	// The mantissa is the value in hundredths, scaled down by 2^exp and rounded to the
